@@ -4,7 +4,6 @@ CONSTANTS
  MaxItems = 3
  MaxTicket = 40
  MaxStale = 0
- MaxGen = 3
  AllowRemove = TRUE
  Dev = {}
  Depth = 40
